@@ -397,6 +397,22 @@ def negotiated(maj, minor):
     return min(best, (3, 8))
 
 
+def reason_text(rng, fill, lengths):
+    """a failure reason: RFC 6143 gives it a length and bytes, not an encoding - ASCII, Latin-1, GBK, a UTF-8 sequence cut
+    by the length field, or arbitrary binary"""
+    n = rng.choice(lengths)
+    r = rng.random()
+    if r < 0.5 or n == 0:
+        return fill * n
+    if r < 0.65:
+        return ("Zugriff verweigert: ung\xfcltiges Kennwort ".encode("latin-1") * (n // 40 + 1))[:n]
+    if r < 0.8:
+        return ("\u8ba4\u8bc1\u5931\u8d25".encode("gbk") * (n // 8 + 1))[:n]
+    if r < 0.9:
+        return ("\u00e9\u20ac".encode("utf-8") * (n // 5 + 1))[:n]       # may end inside a multi-byte sequence
+    return bytes(rng.getrandbits(8) for _ in range(n))
+
+
 # security types this client does not implement: registered ones (RA2, Tight, VeNCrypt, ...) and numbers nobody has registered
 OTHER_SECTYPES = [5, 16, 19, 22, 113, 25, 77, 100, 127, 150, 200, 255]
 
@@ -431,7 +447,7 @@ def gen_handshake(rng, s: Session, variant, password, *, want_success=None, nati
             sec = rng.choice([0, 2, 1, 5, 30])
         s.add(struct.pack("!I", sec))
         if sec == 0:
-            reason = b"x" * rng.choice([0, 1, 2, 40, 300])
+            reason = reason_text(rng, b"x", [0, 1, 2, 40, 300])
             s.add(struct.pack("!I", len(reason)))
             if reason:
                 s.add(reason)
@@ -458,7 +474,7 @@ def gen_handshake(rng, s: Session, variant, password, *, want_success=None, nati
                 types = rng.sample([1, 2, 30, 5, 16, 77, 200], rng.randrange(1, 4))
         s.add(bytes([len(types)]))
         if not types:
-            reason = b"r" * rng.choice([0, 1, 5, 255, 1000])
+            reason = reason_text(rng, b"r", [0, 1, 5, 255, 1000])
             s.add(struct.pack("!I", len(reason)))
             if reason:
                 s.add(reason)
@@ -503,7 +519,7 @@ def gen_handshake(rng, s: Session, variant, password, *, want_success=None, nati
         s.add(struct.pack("!I", result))
         if result in (1, 2):
             if ver >= (3, 8):
-                reason = b"f" * rng.choice([0, 1, 2, 255, 1000])
+                reason = reason_text(rng, b"f", [0, 1, 2, 255, 1000])
                 s.add(struct.pack("!I", len(reason)))
                 if reason:
                     s.add(reason)
